@@ -168,8 +168,12 @@ def afterLastSlash : List Char → List Char → List Char
   | acc, [] => acc.reverse
   | acc, c :: cs => if c = '/' then afterLastSlash [] cs else afterLastSlash (c :: acc) cs
 
-/-- `LibraryInfo::name` of the library with identity string `id` (see `GlobalLibs`) -/
-def libDisplayName (id : Str) : Str := String.ofList (afterLastSlash [] id.toList)
+/-- `LibraryInfo::name` of the library with identity string `id` (see `GlobalLibs`): the last path
+component, without the `#<variant>` suffix. The suffix distinguishes libraries that agree in `name` and
+`path` and differ only in `debug_id` / `code_id` / `arch` / `debug_name` (improvement round; the harness
+derives those fields from it, `add_lib` de-duplicates on the whole `LibraryInfo`, profile.rs:381-400). -/
+def libDisplayName (id : Str) : Str :=
+  String.ofList ((afterLastSlash [] id.toList).takeWhile (· ≠ '#'))
 
 structure ResourceTable where
   libs : List Nat := []
